@@ -40,7 +40,7 @@ func newWorld() *world { return &world{closed: map[string]int{}} }
 
 func (w *world) record(e entry) *entry {
 	w.mu.Lock()
-	keep := entry{addr: e.addr, kind: e.kind, ro: e.ro}
+	keep := entry{addr: e.addr, kind: e.kind, ro: e.ro, dead: e.dead}
 	for _, c := range e.cmds {
 		if w.quiet != nil && w.quiet(c) {
 			continue
